@@ -5,6 +5,15 @@ Three populations, one oracle each:
 (a) round trip: plain item trees (vf.gen.items: all 15 Item types, empty items, nesting up to 30, A/J text over the
     whole byte repertoire with the tokenizer-relevant characters over-represented) are built as secsgem.secs.items
     objects; `Item.from_sml(item.to_sml())` must return the same class structure and the same `encode()` bytes.
+    Long items (class family long:*, case form {"k": "rtl", "spec": ...}: a compact pattern/count spec that expand_long
+    turns into the explicit tree) make the SML text longer than any buffer a tokenizer could read it through: one A/J
+    item of 1 000 .. 98 000 characters (lengths within +-24 of 1024*k, 4096*k, 8192*k, 65536, or anywhere up to 21 000;
+    a repeated 1..9 byte pattern of letters, tokenizer-special characters and non-printable bytes, single bytes replaced
+    next to multiples of 1024), one numeric/binary/boolean item of 200 .. 9 000 elements, or a list of 60 .. 1 800
+    short items, optionally nested 1..5 deep with small siblings. The classes long:lit-straddles-N / long:bare-
+    straddles-N / long:quote-next-to-N / long:*-edge-at-N (N = 1024, 4096, 8192, 65536) say what kind of token of the
+    produced text lies across / next to a multiple of N. A failure that disappears when the same spec is cut down to
+    24 elements gets the bucket prefix `long-text:`.
 (b) mutations of valid SML (base text = secsgem's own to_sml output or the text of an independent SML writer in
     several layouts): one closing `>` outside literals deleted; one type name replaced by an unknown identifier;
     the closing quote of one literal dropped (termination only); plus token-level edit noise (delete/insert/
@@ -72,7 +81,9 @@ TECHNIQUE = (
 )
 RULE = (
     "(a) item trees -> Item objects; from_sml(to_sml()) must have the same classes and encode() bytes (which must equal "
-    "the independent E5 encoding of the tree). (b) valid SML (secsgem to_sml or an independent writer, 5 layouts) with "
+    "the independent E5 encoding of the tree); plus long items (one text item of 1k..98k characters around multiples of "
+    "1024/4096/8192/65536, one numeric item of 200..9000 elements, lists of 60..1800 short items) whose SML text puts "
+    "literals, bare tokens and brackets across and next to buffer-size offsets. (b) valid SML (secsgem to_sml or an independent writer, 5 layouts) with "
     "one closing '>' deleted / one type name replaced by an unknown identifier / one closing quote dropped / 1-4 token "
     "edits; (c) random token strings. Oracle (b,c): line-event count inside secsgem/secs <= 60n+100*tokens+2000, result is "
     "an Item or an exception, exception required when ref.smllex finds the first item unbalanced or a type name "
@@ -582,6 +593,176 @@ def structured_random(dot, max_tokens=40):
 
 
 # --------------------------------------------------------------------------------------------
+# long SML texts (population a, class family long:*): the statement quantifies over all items, so also over items whose
+# SML text is longer than any buffer a tokenizer might read it through. Compact plain specs (pattern + count), expanded
+# to an explicit tree by expand_long; lengths sit around multiples of the usual buffer sizes (1024 .. 65536) and
+# anywhere in between, so that literals, bare tokens and operators fall on / next to / across such offsets.
+
+LONG_BASES = [1024, 2048, 3072, 4096, 4096, 4096, 8192, 8192, 12288, 16384, 20480, 32768, 65536]
+LONG_BOUNDARIES = (1024, 4096, 8192, 65536)  # class statistics only
+PLAIN_TEXT_BYTES = list(b"abcdeXYZ0189")
+PUNCT_TEXT_BYTES = list(b" <>[]'.,x0-")
+
+
+def _pat_byte():
+    return st.one_of(
+        st.sampled_from(PLAIN_TEXT_BYTES),
+        st.sampled_from(PLAIN_TEXT_BYTES),
+        st.sampled_from(PUNCT_TEXT_BYTES),
+        st.sampled_from(SPECIAL_BYTES),
+        st.integers(0, 255),
+    )
+
+
+def long_specs(max_base=65536):
+    small_text = text_leaf(6)
+    small_any = st.one_of(gi.leaf(max_n=4), text_leaf(6))
+
+    @st.composite
+    def _s(draw):
+        shape = draw(st.sampled_from(["text", "text", "text", "num", "many", "many"]))
+        spec = {"shape": shape, "clean": draw(st.sampled_from([1, 1, 1, 0])), "wrap": draw(st.sampled_from([0, 0, 1, 2, 5]))}
+        if shape == "text":
+            base = draw(st.sampled_from([b for b in LONG_BASES if b <= max_base]))
+            n = draw(st.one_of(st.integers(base - 24, base + 24), st.integers(base, base + base // 2), st.integers(1000, 21000)))
+            if base >= 32768:  # one very long printable run (the tokenizer keeps the current line: cost grows with the square)
+                pat = draw(st.lists(st.sampled_from(PLAIN_TEXT_BYTES + PUNCT_TEXT_BYTES), min_size=1, max_size=9))
+            else:
+                pat = draw(st.lists(_pat_byte(), min_size=1, max_size=9))
+            ins = draw(st.lists(st.tuples(st.integers(1, 64), st.integers(-12, 12), _pat_byte()).map(list), max_size=4))
+            spec.update(f=draw(st.sampled_from(["A", "A", "J"])), n=n, pat=pat, ins=ins)
+            spec["pre"] = draw(st.lists(small_any, max_size=2))
+            spec["post"] = draw(st.lists(small_any, max_size=2))
+        elif shape == "num":
+            f = draw(st.sampled_from([x for x in gi.SCALARS if x not in ("A", "J")]))
+            spec.update(f=f, n=draw(st.one_of(st.integers(200, 2500), st.integers(2500, 9000))), pat=draw(st.lists(gi.elems(f), min_size=1, max_size=5)), ins=[])
+            spec["pre"] = draw(st.lists(small_any, max_size=2))
+            spec["post"] = draw(st.lists(small_any, max_size=2))
+        else:
+            spec["count"] = draw(st.one_of(st.integers(60, 700), st.integers(700, 1800)))
+            spec["elems"] = draw(st.lists(st.one_of(small_text, small_text, small_any), min_size=1, max_size=5))
+        return spec
+
+    return _s()
+
+
+def expand_long(spec):
+    """Compact long-item spec -> explicit plain tree."""
+    if spec["shape"] == "many":
+        el = spec["elems"]
+        node = {"f": "L", "v": [el[i % len(el)] for i in range(spec["count"])]}
+    else:
+        pat, n = spec["pat"], spec["n"]
+        v = (pat * (n // len(pat) + 1))[:n]
+        for k, off, b in spec.get("ins", []):
+            pos = k * 1024 + off - 5  # `< A "` precedes the text of a top-level item
+            if 0 <= pos < n:
+                v[pos] = b
+        node = {"f": spec["f"], "v": v}
+        if spec.get("pre") or spec.get("post"):
+            node = {"f": "L", "v": list(spec.get("pre", [])) + [node] + list(spec.get("post", []))}
+    for _ in range(spec.get("wrap", 0)):
+        node = {"f": "L", "v": [node]}
+    return sanitize(node) if spec.get("clean") else node
+
+
+def shorten_long(spec, limit=24):
+    """The same spec with the repetition count cut down (attribution: does the failure need the length?)."""
+    s = dict(spec)
+    if s["shape"] == "many":
+        s["count"] = min(s["count"], limit)
+    else:
+        s["n"] = min(s["n"], limit)
+    return s
+
+
+def long_classes(tree, spec):
+    """Where tokens of the SML text lie relative to multiples of the usual buffer sizes (generator measurement)."""
+    out = ["rt:long", f"long:shape:{spec['shape']}", "long:clean" if spec.get("clean") else "long:raw"]
+    try:
+        sml = build(tree).to_sml()
+    except Exception:
+        return out + ["long:to_sml-raises"]
+    n = len(sml)
+    out.append("long:sml-len:" + ("<1k" if n < 1024 else "1k-4k" if n < 4096 else "4k-8k" if n < 8192 else "8k-20k" if n < 20480 else "20k-64k" if n < 65536 else "64k+"))
+    toks, _ = smllex.lex(sml)
+    starts = [t.pos for t in toks]
+    import bisect
+
+    for b in LONG_BOUNDARIES:
+        for m in range(b, n, b):
+            i = bisect.bisect_right(starts, m) - 1
+            t = toks[i] if i >= 0 else None
+            if t is not None and t.pos < m < t.end:
+                out.append(f"long:{t.kind}-straddles-{b}")
+                if t.kind == "lit" and (m == t.pos + 1 or m == t.end - 1):
+                    out.append(f"long:quote-next-to-{b}")
+            elif t is not None and (t.pos == m or t.end == m):
+                out.append(f"long:{t.kind}-edge-at-{b}")
+            else:
+                out.append(f"long:blank-at-{b}")
+    return sorted(set(out))
+
+
+def check_long(spec):
+    """Round trip of the expanded item -> Failure | None | "excluded". The failure carries the compact spec."""
+    f = check_roundtrip(expand_long(spec))
+    if not isinstance(f, Failure):
+        return f
+    short = check_roundtrip(expand_long(shorten_long(spec)))
+    bucket = f.bucket
+    if not (isinstance(short, Failure) and short.bucket == f.bucket):
+        bucket = "long-text:" + f.bucket  # the short form of the same item round-trips: the length is what matters
+    return Failure(bucket, {"k": "rtl", "spec": spec}, f.observed, f.expected)
+
+
+def run_long(spec, ctx):
+    tree = expand_long(spec)
+    ctx.case({"k": "rtl", "spec": spec}, True, long_classes(tree, spec))
+    f = check_long(spec)
+    if f == "excluded":
+        ctx.exclude("item.encode() differs from the E5 reference (C14 territory)")
+        return None
+    return f
+
+
+def minimise_long(spec, bucket, max_evals=60):
+    """Smaller spec with the same bucket: simpler pattern, no extras, then the smallest count found by bisection."""
+    stop_at = STEPS_USED[0] + 4 * MINIMISE_STEPS
+    evals = [0]
+
+    def fails(s):
+        evals[0] += 1
+        if evals[0] > max_evals or STEPS_USED[0] > stop_at:
+            return False
+        f = check_long(s)
+        return isinstance(f, Failure) and f.bucket == bucket
+
+    best = spec
+    simpler = [{"wrap": 0}, {"pre": [], "post": []}, {"ins": []}, {"clean": 1}]
+    if spec["shape"] == "many":
+        simpler += [{"elems": [e]} for e in spec["elems"][:2]] + [{"elems": [{"f": "A", "v": [0x61]}]}]
+    elif spec["shape"] == "text":
+        simpler += [{"pat": [0x61]}, {"f": "A"}]
+    else:
+        simpler += [{"pat": spec["pat"][:1]}]
+    for change in simpler:
+        if all(k in best for k in change) and any(best[k] != v for k, v in change.items()):
+            cand = dict(best, **change)
+            if fails(cand):
+                best = cand
+    key = "count" if best["shape"] == "many" else "n"
+    lo, hi = 0, best[key]  # invariant: hi fails; lo is not known to fail
+    while hi - lo > 1 and evals[0] < max_evals:
+        mid = (lo + hi) // 2
+        if fails(dict(best, **{key: mid})):
+            hi = mid
+        else:
+            lo = mid
+    return dict(best, **{key: hi})
+
+
+# --------------------------------------------------------------------------------------------
 # case evaluation
 
 
@@ -827,6 +1008,8 @@ def minimise_failures(ctx, start=0):
         if case.get("k") == "rt":
             small = minimise_tree(case["item"], f.bucket)
             g = check_roundtrip(small)
+        elif case.get("k") == "rtl":
+            g = check_long(minimise_long(case["spec"], f.bucket))
         elif case.get("k") == "text":
             small = minimise_text(case["text"], f.bucket, case.get("strict", False), case.get("demand", True))
             g = check_text(small, strict_quotes=case.get("strict", False), demand=case.get("demand", True))
@@ -847,18 +1030,21 @@ def hyp(ctx, strategy, body, n, seed_offset):
 
 
 def plan(tier, seed):
-    """quick: 18 tasks. thorough: the same populations in shards of <= 1500 examples (a shard that is running when
+    """quick: 23 tasks. thorough: the same populations in shards of <= 1500 examples (a shard that is running when
     the budget ends still has to let Hypothesis generate its remaining examples; small shards keep that short)."""
     q = tier == "quick"
-    tasks = [("enum", {}), ("names", {})]
+    tasks = [("enum", {}), ("enum_long", {}), ("names", {})]
     n_clean, n_raw, n_mut, n_rand = (6, 2, 4, 4) if q else (96, 48, 64, 96)
     per_rt = 520 if q else 1500
     per_mut = 520 if q else 1500
     per_rand = 800 if q else 1500
+    n_long, per_long = (4, 60) if q else (32, 400)
     for i in range(n_clean):
         tasks.append(("rt", {"mode": "clean", "shard": i, "n": per_rt}))
     for i in range(n_raw):
         tasks.append(("rt", {"mode": "raw", "shard": 1000 + i, "n": per_rt}))
+    for i in range(n_long):
+        tasks.append(("long", {"shard": 4000 + i, "n": per_long}))
     for i in range(n_mut):
         tasks.append(("mut", {"shard": 2000 + i, "n": per_mut}))
     for i in range(n_rand):
@@ -876,8 +1062,12 @@ def run_task(name, kw, ctx):
         if mode == "clean":
             strat = strat.map(sanitize)
         hyp(ctx, strat, lambda tree: run_rt(tree, mode, ctx), kw["n"], kw["shard"])
+    elif name == "long":
+        hyp(ctx, long_specs(), lambda spec: run_long(spec, ctx), kw["n"], kw["shard"])
     elif name == "enum":
         _enum_task(ctx)
+    elif name == "enum_long":
+        _enum_long_task(ctx)
     elif name == "names":
         _names_task(ctx)
     elif name == "mut":
@@ -919,6 +1109,26 @@ def _enum_task(ctx):
     trees.append({"f": "B", "v": list(range(256))})
     for t in trees:
         ctx.report(run_rt(t, "enum", ctx))
+    _enum_texts(ctx)
+
+
+def _enum_long_task(ctx):
+    """Fixed long items (own task: they cost as much as the rest of the enumeration together)."""
+    start = len(ctx.failures)
+    # long texts: one printable run / one long list whose SML text ends just before, on and after multiples of the usual
+    # buffer sizes (the closing quote, the closing bracket and the last characters each sit on the offset once)
+    for base in (1024, 2048, 4096, 8192, 12288, 16384, 20480, 65536):
+        for d in range(-9, 3) if base < 65536 else (-7, -6, -1, 0):
+            for f in ("A", "J") if base <= 8192 else ("A",):
+                spec = {"shape": "text", "clean": 1, "wrap": 0, "f": f, "n": base + d, "pat": [0x61 + (d % 3), 0x20, 0x3E][: 1 + (d % 3)], "ins": [], "pre": [], "post": []}
+                ctx.report(run_long(spec, ctx))
+    for count in (90, 350, 700, 1400):
+        for el in ([{"f": "A", "v": [0x61, 0x62, 0x63]}], [{"f": "A", "v": [0x61, 0x20, 0x3C]}, {"f": "U1", "v": [1, 2, 3]}, {"f": "J", "v": [0x27, 0x41]}]):
+            ctx.report(run_long({"shape": "many", "clean": 1, "wrap": 0, "count": count, "elems": el}, ctx))
+    minimise_failures(ctx, start)
+
+
+def _enum_texts(ctx):
     # fixed texts of the rejection half (documented examples and the design-time observations)
     texts = [
         "< L . ",
@@ -1114,6 +1324,9 @@ def _fuzz_task(kw, ctx):
 def replay(case, ctx):
     if case.get("k") == "rt":
         f = check_roundtrip(case["item"])
+        return None if f == "excluded" else f
+    if case.get("k") == "rtl":
+        f = check_long(case["spec"])
         return None if f == "excluded" else f
     if case.get("k") == "text":
         return check_text(case["text"], strict_quotes=case.get("strict", False), demand=case.get("demand", True))
